@@ -61,6 +61,14 @@ Qed.
 Lemma outs_of_length choices : forall steps, length (outs_of choices steps) = length choices.
 Proof. induction choices as [|b ch IH]; intro steps; cbn [outs_of]; [reflexivity|]. destruct (is_dead b); cbn [length]; rewrite IH; reflexivity. Qed.
 
+Lemma step_outcome_spec st :
+  (fst (step_outcome st) = ConnectErr <-> false = true) /\ (snd (step_outcome st) = 200 \/ snd (step_outcome st) = 500).
+Proof.
+  unfold step_outcome.
+  repeat match goal with |- context [if ?c then _ else _] => destruct c end;
+    cbn; (split; [split; intro; discriminate|auto]).
+Qed.
+
 Lemma outs_of_nth choices : forall steps k b,
   nth_error choices k = Some b ->
   exists o, nth_error (outs_of choices steps) k = Some o /\ (fst o = ConnectErr <-> is_dead b = true)
@@ -70,10 +78,7 @@ Proof.
   cbn [outs_of]. destruct k as [|k].
   - cbn [nth_error] in H. inversion H; subst b0. destruct (is_dead b) eqn:D.
     + eexists. split; [reflexivity|]. cbn. split; [tauto|right; reflexivity].
-    + eexists. split; [reflexivity|].
-      destruct (match steps with x :: _ => x | [] => 0 end =? 0); [cbn; split; [split; intro; discriminate|left; reflexivity]|].
-      destruct (match steps with x :: _ => x | [] => 0 end =? 4); [cbn; split; [split; intro; discriminate|right; reflexivity]|].
-      destruct (match steps with x :: _ => x | [] => 0 end =? 5); cbn; (split; [split; intro; discriminate|right; reflexivity]).
+    + eexists. split; [reflexivity|]. apply step_outcome_spec.
   - cbn [nth_error] in H. destruct (is_dead b0); cbn [nth_error]; eapply IH; exact H.
 Qed.
 
@@ -235,10 +240,10 @@ Proof. intros Hm Hc H. rewrite model_obs_eq in H. apply (prop_of_model_f 20 i ch
 
 (* corollary through the wire functions: the model's own output satisfies the property *)
 Corollary prop_of_run v i :
-  decode_C08 v = Some i -> 0 <= retry_max (i_cfg i) -> 0 <= cross_retry (i_cfg i) ->
+  decode_C08 v = Some i -> i_topo i = 0 -> 0 <= retry_max (i_cfg i) -> 0 <= cross_retry (i_cfg i) ->
   run_C08 v <> VErr 1 -> prop_C08 v (run_C08 v) = true.
 Proof.
-  intros D Hm Hc Hne. unfold prop_C08, run_C08 in *. rewrite D in *.
+  intros D T Hm Hc Hne. unfold prop_C08, run_C08, model_any in *. rewrite D in *. rewrite T in *. rewrite !Z.eqb_refl in *.
   destruct (model_obs i (default_choices i)) as [o|] eqn:M; [|congruence].
   eapply prop_of_model; eassumption.
 Qed.
